@@ -1,4 +1,5 @@
-From Verif Require Import Base.Str Gen.Consts Gen.Casing Gen.Gql Gen.Directive Gen.Convert.
+From Verif Require Import Base.Str Gen.Consts Gen.Casing Gen.Gql Gen.Directive Gen.Convert Gen.Wf.
+From Coq Require Import Arith PeanoNat.
 
 (* ================= precedence: node > for > operation ================= *)
 Definition first_set (l : list (option bool)) : option bool :=
@@ -168,6 +169,48 @@ Proof.
   exists [], [], [], {| fd_main := set_omitempty dir0 (Some true); fd_for := [] |}.
   eexists. split; [vm_compute; reflexivity | reflexivity].
 Qed.
+
+(* ================= the line index of parsePrecedingComment ================= *)
+(* `sourceLines[i-1]` for i from pos.Line-1 down: in range iff line-1 <= number of lines *)
+Lemma lines_above_out_of_range : forall src line,
+  (List.length src < N.to_nat line - 1)%nat -> exists m, lines_above src line = Panic m.
+Proof.
+  intros src line H. unfold lines_above. apply Nat.ltb_lt in H. rewrite H. eexists. reflexivity.
+Qed.
+
+Lemma lines_above_in_range : forall src line,
+  (N.to_nat line - 1 <= List.length src)%nat -> exists l, lines_above src line = Ok l.
+Proof.
+  intros src line H. unfold lines_above.
+  destruct (Nat.ltb (List.length src) (N.to_nat line - 1)) eqn:E.
+  - apply Nat.ltb_lt in E. exfalso. exact (Nat.lt_irrefl _ (Nat.lt_le_trans _ _ _ E H)).
+  - eexists. reflexivity.
+Qed.
+
+(* the two cases are exhaustive: the scan's input is defined exactly for positions inside the source *)
+Theorem lines_above_panics_iff src line :
+  (exists m, lines_above src line = Panic m) <-> (List.length src < N.to_nat line - 1)%nat.
+Proof.
+  split; [|apply lines_above_out_of_range].
+  intros [m H]. destruct (Nat.lt_ge_cases (List.length src) (N.to_nat line - 1)) as [L|G]; [exact L|].
+  destruct (lines_above_in_range src line G) as [l E]. rewrite E in H. discriminate H.
+Qed.
+
+(* the boolean check of Gen/Wf.v is exactly "in range" *)
+Lemma lines_above_pos_ok srcs s line :
+  pos_okb srcs s line = true -> exists l, lines_above (nth s srcs []) line = Ok l.
+Proof. intro H. apply lines_above_in_range. apply Nat.leb_le. exact H. Qed.
+
+Lemma lines_above_pos_bad srcs s line :
+  pos_okb srcs s line = false -> exists m, lines_above (nth s srcs []) line = Panic m.
+Proof. intro H. apply lines_above_out_of_range. apply Nat.leb_gt. exact H. Qed.
+
+(* the position handed to parsePrecedingComment (None: synthesised node) is inside its source *)
+Definition pos_in_range (srcs : list (list lkind)) (pos : option (nat * N)) : Prop :=
+  match pos with Some (s, line) => pos_okb srcs s line = true | None => True end.
+
+Lemma pos_of_in_range srcs src line : pos_okb srcs src line = true -> pos_in_range srcs (pos_of src line).
+Proof. intro H. unfold pos_of. destruct (N.eqb line 0); [exact I | exact H]. Qed.
 
 (* ================= the Go type of a field or parameter ================= *)
 Section Shape.
